@@ -328,11 +328,13 @@ func (ty *ObjectType) Merge(other ExprType) ExprType {
 	switch other := other.(type) {
 	case *ObjectType:
 		// Shortcuts
+		// Note: Do not return `ty` or `other` themselves. The caller may modify the returned type
+		// and they may be shared (e.g. type of `github.event` in BuiltinGlobalVariableTypes)
 		if len(ty.Props) == 0 && other.IsLoose() {
-			return other
+			return other.shallowCopy()
 		}
 		if len(other.Props) == 0 && ty.IsLoose() {
-			return ty
+			return ty.shallowCopy()
 		}
 
 		mapped := ty.Mapped
@@ -364,6 +366,14 @@ func (ty *ObjectType) Merge(other ExprType) ExprType {
 	default:
 		return AnyType{}
 	}
+}
+
+func (ty *ObjectType) shallowCopy() *ObjectType {
+	p := make(map[string]ExprType, len(ty.Props))
+	for n, t := range ty.Props {
+		p[n] = t
+	}
+	return &ObjectType{p, ty.Mapped}
 }
 
 // DeepCopy duplicates itself. All its child types are copied recursively.
